@@ -80,7 +80,7 @@ func Plain(v any) (any, bool) {
 		tag, _ := t[0].(string)
 		switch tag {
 		case "NIL":
-			return "<nil-list>", true
+			return "NIL-LIST", true
 		case "R":
 			a, _ := t[1].(jsonNumber).Int64()
 			b, _ := t[2].(jsonNumber).Int64()
@@ -292,6 +292,12 @@ def _gostr(x):
 def _str(x):
     if 'str-of-container-go-format' in _T: return _gostr(x)
     return str(x)
+def _dkeys(d):
+    return sorted(d.keys()) if 'dict-enumeration-sorted' in _T else list(d.keys())
+def _dvalues(d):
+    return [d[k] for k in _dkeys(d)]
+def _ditems(d):
+    return [[k, d[k]] for k in _dkeys(d)]
 def _prelude():
     return {
         'range': lambda *a: list(_brange(*a)),
@@ -302,7 +308,7 @@ def _prelude():
         'filter': lambda f, s: list(_bfilter(f, s)),
         'reduce': lambda f, s, initializer=None: functools.reduce(f, s) if initializer is None else functools.reduce(f, s, initializer),
         '_add': _add, '_sub': _sub, '_mul': _mul, '_neg': _neg, '_div': _div, '_fdiv': _fdiv, '_mod': _mod,
-        '_eq': _eq, '_in': _in, '_str': _str,
+        '_eq': _eq, '_in': _in, '_str': _str, '_dkeys': _dkeys, '_dvalues': _dvalues, '_ditems': _ditems,
     }
 def _hasfloat(v):
     if isinstance(v, float): return True
